@@ -305,6 +305,12 @@ Simultaneous(ts, m, r) ==
 (* the whole expression is one operand, possibly signed: `nan`, `-x`, `2.5` *)
 Lone(ts) == Len(ts) = 1 \/ (Len(ts) = 2 /\ ts[1].kind = "OP")
 
+(* entries that send a name to itself are legitimate (a caller that qualifies some names and  *)
+(* lists the others unchanged): such an entry requests that the name stays what it is         *)
+IdentityEntry(p) == p.from = p.to
+AllIdentity(m) == \A i \in 1..Len(m) : IdentityEntry(m[i])      \* includes the empty map
+HasIdentity(m) == \E i \in 1..Len(m) : IdentityEntry(m[i])
+
 IsSwap(m) == Len(m) = 2 /\ m[1].from = m[2].to /\ m[2].from = m[1].to /\ m[1].from # m[1].to
 
 MustPreserve(ts, m) == Arith(ts) /\ InjectiveOn(m, NameSet(ts))
@@ -327,6 +333,7 @@ C13_OnlyWholeNames == Renamed => OnlyWholeNames(toks, ren, res)
 C13_Simultaneous ==
     Renamed => /\ Simultaneous(toks, ren, res)
                /\ IsSwap(ren) => SubstOp(res, ren) = toks      \* swapping twice is the identity
+               /\ AllIdentity(ren) => res = toks               \* a map of no-op entries changes nothing
 
 C13_ValuePreserved == Renamed => ValuePreserved(toks, ren, res)
 
